@@ -20,11 +20,13 @@ import (
 // Document/Element/Text/Comment/Doctype nodes, and Render of every returned root succeeds. Termination: the engine
 // runs the real token loop to completion on every path (no unwinding bound is hit).
 
-// Findings on the unchanged tree (both reproduce through the public API: repro/C41/parse_findings_test.go), kept as
+// Findings on the unchanged tree (all reproduce through the public API: repro/C41/parse_findings_test.go), kept as
 // known findings so that other violations are still reported:
 //   C41-render-foreign-void        Parse("<svg><input>x") -> Render: "html: void element <input> has child nodes"
 //   C41-fragment-head-root-popped  ParseFragment("<frameset></frameset>" | "</body><!--c-->", context <head>) -> error from a
 //                                  recovered nil dereference / panic("bad parser state") because inHeadIM popped the html root
+//   C41-fragment-foreign-endhtml   ParseFragment("</html>x", context <svg> or <math>) -> error from a recovered nil dereference:
+//                                  parseForeignContent pops the html root because its name matches the end tag
 //
 // Sensitivity (mut.sh, quick tier, soup):
 //   node.go InsertBefore: `next.PrevSibling = newChild` -> `= prev`             caught ("PrevSibling mirrors NextSibling")
@@ -110,12 +112,12 @@ var c41contexts = []c41ctx{
 
 // tags used in the enumerated holes; the first c41quickTags are used in the quick tier.
 var c41tags = []string{
-	"a", "b", "p", "div", "table", "tr", "td", "select", "template", "form", "input", "svg", "math", "title", "frameset", "body",
+	"a", "b", "p", "div", "table", "tr", "td", "select", "template", "form", "input", "svg", "math", "title", "frameset", "body", "html",
 	// thorough only
-	"caption", "option", "html", "head", "script", "desc", "mi", "br", "li", "h1", "nobr", "applet", "textarea", "area",
+	"caption", "option", "head", "script", "desc", "mi", "br", "li", "h1", "nobr", "applet", "textarea", "area",
 }
 
-const c41quickTags = 16
+const c41quickTags = 17
 
 var c41texts = []string{"x", " ", "<!--c-->", "\x00", "<![CDATA[x]]>"}
 
@@ -159,7 +161,15 @@ func c41parse(sk int, body string, scripting bool) {
 	// empty stack: "<frameset></frameset>" dereferences p.oe.top() == nil in inFramesetIM, "</body><!--c-->" reaches
 	// the explicit panic "bad parser state: <html> element not found" in afterBodyIM. parse() recovers the panic and
 	// returns it as an error. Every error under a <head> context is attributed to this root cause.
-	vfAssertKF(err == nil, "ParseFragment returns no error (no recovered panic)", "C41-fragment-head-root-popped", c.tag == "head")
+	// Known finding C41-fragment-foreign-endhtml: with an svg/math context element the end tag "</html>" is handled by
+	// parseForeignContent, whose first test compares the tag with the current node's name without looking at its
+	// namespace: the synthetic html root matches and is popped, the stack is empty, and the next text token makes
+	// inBodyIM dereference p.oe.top() == nil (recovered, returned as an error).
+	if c.ns != "" {
+		vfAssertKF(err == nil, "ParseFragment returns no error (no recovered panic)", "C41-fragment-foreign-endhtml", strings.Contains(body, "</html>"))
+	} else {
+		vfAssertKF(err == nil, "ParseFragment returns no error (no recovered panic)", "C41-fragment-head-root-popped", c.tag == "head")
+	}
 	total := 0
 	for _, n := range nodes {
 		total += c41checkRoot(n, true)
